@@ -219,10 +219,10 @@ class Ctx:
                 p.kill()
                 raise Broken("trace validation timeout %s shard %d" % (name, si))
             open(os.path.join(d, "tlc.out"), "w").write(out)
-            m = re.search(r"VERDICT (\[.*?\]|<<.*?>>)\s*$", out, re.M)
+            m = re.search(r"VERDICT (\[[0-9, ]*\])", out)
             if p.returncode != 0 or not m or "TRACE-CONSUMED %d" % cnt not in out:
                 raise Broken("trace validation failed in %s shard %d (exit %s):\n%s" % (name, si, p.returncode, out[-3000:]))
-            idx = json.loads(m.group(1)) if m.group(1).startswith("[") else []
+            idx = json.loads(m.group(1))
             for i in idx:
                 bad.append(si * per + i - 1)   # TLC indices are 1-based
         self.validated += n
@@ -239,6 +239,24 @@ class Ctx:
                             "rejected": len(bad), "shards": len(procs), "wall_s": round(time.time() - t, 1)})
         log("%s: validated %d events, %d rejected in %.1fs" % (name, n, len(bad), time.time() - t))
         return bad
+
+    def selftest_binding(self, name, module_rel, cfg_rel, tracef, family, corrupt, constants=None):
+        """Binding self-test: corrupt one recorded field; the trace must then be rejected at that event."""
+        lines = open(tracef).read().splitlines()
+        idx, newline = corrupt(lines)
+        lines[idx] = newline
+        p = os.path.join(self.scratch, name + "-corrupt.ndjson")
+        open(p, "w").write("\n".join(lines) + "\n")
+        saved = (self.failures, self.validated, self.samples, self.stages)
+        self.failures, self.samples, self.stages = [], [], []
+        try:
+            bad = self.validate(name + "-selftest", module_rel, cfg_rel, p, family, constants=constants)
+        finally:
+            self.failures, self.validated, self.samples, self.stages = saved
+        if idx not in bad:
+            raise Broken("binding self-test failed: corrupted event %d of %s was accepted by %s" % (idx, name, module_rel))
+        self.stages.append({"stage": name + "-selftest", "kind": "binding-self-test", "corrupted_event": idx, "rejected": True})
+        log("%s: binding self-test ok (corrupted event %d rejected)" % (name, idx))
 
     # ------------------------------------------------------------------ verdict
     def known(self):
